@@ -1,5 +1,7 @@
 package term
 
+import "git.sr.ht/~rockorager/vaxis"
+
 func (vt *Model) esc(esc string) {
 	switch esc {
 	case "7":
@@ -156,12 +158,37 @@ func (vt *Model) ris() {
 		vt.altScreen[i] = make([]cell, w)
 		vt.primaryScreen[i] = make([]cell, w)
 	}
+	vt.margin.top = 0
 	vt.margin.bottom = row(h) - 1
 	vt.margin.right = column(w) - 1
 	vt.cursor.row = 0
 	vt.cursor.col = 0
+	vt.cursor.Style = vaxis.Style{}
 	vt.lastCol = false
 	vt.activeScreen = vt.primaryScreen
+	// both saved cursors as New() leaves them
+	vt.primaryState = cursorState{
+		charsets: charsets{
+			designations: map[charsetDesignator]charset{
+				g0: ascii,
+				g1: ascii,
+				g2: ascii,
+				g3: ascii,
+			},
+		},
+		decawm: true,
+	}
+	vt.altState = cursorState{
+		charsets: charsets{
+			designations: map[charsetDesignator]charset{
+				g0: ascii,
+				g1: ascii,
+				g2: ascii,
+				g3: ascii,
+			},
+		},
+		decawm: true,
+	}
 	vt.charsets = charsets{
 		selected: 0,
 		saved:    0,
